@@ -238,6 +238,20 @@ func C17(run *core.Run) {
 				name string
 				f    func(mocrelay.Handler) mocrelay.Handler
 			}{desc, func(h mocrelay.Handler) mocrelay.Handler { return mocrelay.BuildMiddlewareFromNIP11(d)(h) }})
+			if b.Present {
+				// the same block with the limits the chain does not enforce set as well: they must not disturb the others
+				d2 := *doc
+				l2 := *doc.Limitation
+				l2.MaxMessageLength = 1
+				if d.Limitation.MaxMessageLength != 0 {
+					l2.MaxMessageLength = 1 << 20
+				}
+				d2.Limitation = &l2
+				wraps = append(wraps, struct {
+					name string
+					f    func(mocrelay.Handler) mocrelay.Handler
+				}{desc + "+max_message_length", func(h mocrelay.Handler) mocrelay.Handler { return mocrelay.BuildMiddlewareFromNIP11(&d2)(h) }})
+			}
 			if b.Present && b.Lower == 60 && b.Upper == 60 && b.Filters == 0 && b.MaxLimit == 0 && b.Tags == 0 && b.Content == 0 {
 				wraps = append(wraps, struct {
 					name string
